@@ -143,16 +143,24 @@ def rule_doc(c, prog):
     for x in core.walk_fn(fn):
         if x.get("k") == "MethodCall" and x["m"] == "attr":
             attrs[core.lit_value(x["args"][0])] = core.fingerprint(x["args"][1], 4)
-    if attrs.get("class", "").startswith("instance.class") and attrs.get("referent") == "mapped_id.to_string()":
+    # referent attribute: the decimal text of the u32 returned by state.map_id(<this instance's id>)
+    ref_ok = False
+    lets = {st["pat"].get("lid"): st for st in core.walk_lets(fn.body) if "init" in st and st["pat"].get("k") == "Binding"}
+    id_lid = common.param_lid_by_type(fn, lambda t: t.endswith("referent::Ref"))
+    for x in core.walk_fn(fn):
+        if x.get("k") == "MethodCall" and x["m"] == "attr" and core.lit_value(x["args"][0]) == "referent":
+            v = core.strip(x["args"][1])
+            if v.get("k") == "MethodCall" and v["m"] == "to_string":
+                src = core.strip(v["recv"])
+                e = core.strip(lets[src["lid"]]["init"]) if src.get("k") == "Path" and src.get("lid") in lets else src
+                ty = lets[src["lid"]]["pat"].get("ty") if src.get("k") == "Path" and src.get("lid") in lets else e.get("ty")
+                ref_ok = e.get("k") == "MethodCall" and e["m"] == "map_id" and ty == "u32" and core.strip(e["args"][0]).get("lid") == id_lid
+    cls_ok = any(x.get("k") == "MethodCall" and x["m"] == "attr" and core.lit_value(x["args"][0]) == "class" and [p for p in core.place_root(x["args"][1])[1] if not p.startswith(".")][-1:] == ["class"] for x in core.walk_fn(fn))
+    if cls_ok and set(attrs) == {"class", "referent"}:
         c.ok(R, "item:attributes")
     else:
-        c.violation(R, "item|attributes", f"<Item> attributes are {attrs}; required class=instance.class, referent=mapped_id.to_string()", fn.sp, instance="item:attributes")
-    ok = False
-    for st in core.walk_lets(fn.body):
-        if st["pat"].get("name") == "mapped_id":
-            e = core.strip(st["init"])
-            ok = e.get("k") == "MethodCall" and e["m"] == "map_id" and st["pat"].get("ty") == "u32"
-    if ok:
+        c.violation(R, "item|attributes", f"<Item> attributes are {attrs}; required class=instance.class, referent=<mapped id>", fn.sp, instance="item:attributes")
+    if ref_ok:
         c.ok(R, "item:referent-is-u32-from-map_id")
     else:
         c.violation(R, "item|referent", "the Item referent is no longer the u32 returned by state.map_id(id) (digits only: never `null`, unique per instance)", fn.sp, instance="item:referent-is-u32-from-map_id")
